@@ -143,6 +143,26 @@ let run_foldeq () =
   done with End_of_file -> ());
   Printf.printf "SUMMARY cases=%d runs=%d mismatches=%d nontrivial=%d propviol=%d\n" !n !n !mism !nontrivial !pviol
 
+(* ---- UTF-16 / UCS-2 cursor stream (C14): D lines against the model, everything else passed through ---- *)
+let run_utf16 () =
+  let n = ref 0 and mism = ref 0 in
+  (try while true do
+    let line = input_line stdin in
+    match split line with
+    | "D" :: uc :: fw :: ux :: off :: res ->
+      incr n;
+      let units = if ux = "-" then [] else List.map (fun x -> n_of_int (int_of_string ("0x" ^ x))) (String.split_on_char ',' ux) in
+      let p = nat_of_int (ios off) in
+      let model = (match uc, fw with
+        | "0", "1" -> u16_next_right units p | "0", _ -> u16_next_left units p
+        | _, "1" -> ucs2_next_right units p | _, _ -> ucs2_next_left units p) in
+      let ms = (match model with None -> "N" | Some (c, q) -> Printf.sprintf "%d %d" (int_of_n c) (int_of_nat q)) in
+      let is = String.concat " " res in
+      if ms <> is then begin incr mism; Printf.printf "MISMATCH stage=S6-utf16-cursor ucs2=%s forward=%s units=%s offset=%s impl=%s model=%s\n" uc fw ux off (String.concat "_" res) (String.concat "_" (split ms)) end
+    | _ -> print_endline line
+  done with End_of_file -> ());
+  Printf.printf "SUMMARY cursor_steps=%d cursor_mismatches=%d\n" !n !mism
+
 (* ---- property lookup stream (C11) ---- *)
 (* OCaml string -> the extracted Coq string (EmptyString | String of ascii * string, ascii = 8 booleans) *)
 let coq_string (s : string) : Model.string =
